@@ -15,7 +15,8 @@ MIN_BUDGET = {"quick": 25, "thorough": 120}
 RULE = ("seeded plans: 2-4 committers x 1-3 commits over {append, two-append txn, delete file (+append), expire "
         "(+append), delete_snapshot, property set} on a table pre-seeded with 0-3 snapshots; topology "
         "separate/shared/mixed handles; backend local/CAS-S3; clock fine/coarse/frozen; scheduler "
-        "random(p)/PCT(d)/default at seam granularity. Distinct = SHA-1 of the (actor, op, path-class, outcome) "
+        "random(p)/PCT(d)/default at seam granularity, plus a targeted hold parking one committer just before the commit "
+        "lock until another has committed (guaranteed stale base). Distinct = SHA-1 of the (actor, op, path-class, outcome) "
         "sequence of write/lock/pointer events; non-trivial = the run had >= 1 OCC retry, CAS conflict, lock "
         "contention or equal-timestamp commit AND >= 2 pointer flips by different actors.")
 ASSUMPTIONS = common.BASE_ASSUMPTIONS + [
@@ -49,11 +50,12 @@ def gen(rng: random.Random, tier: str, idx: int) -> dict:
     topo = rng.choice(["separate", "separate", "shared", "mixed"])
     clock = rng.choice(["fine", "fine", "coarse", "frozen"])
     nact = rng.randint(2, 4)
+    max_ops = 3 if tier == "quick" else 5
     meta_heavy = rng.random() < 0.3
     actors = []
     for i in range(nact):
         ops = []
-        for j in range(rng.randint(1, 3)):
+        for j in range(rng.randint(1, max_ops)):
             tag = f"a{i}.{j}"
             if meta_heavy:
                 op = rng.choice([{"kind": "delete_snapshot", "k": rng.randint(0, 5)},
@@ -77,6 +79,13 @@ def gen(rng: random.Random, tier: str, idx: int) -> dict:
             "policy": common.gen_policy(rng), "faults": []}
     if rng.random() < 0.15:
         plan["retention"] = rng.randint(1, 3)
+    if topo == "separate" and rng.random() < 0.3:
+        # park one committer right before it takes the commit lock (its base is already read, its manifests written)
+        # until another committer has finished an operation: a guaranteed stale base at validation time
+        site = {"op": "flock", "cls": "LOCK"} if backend == "local" else {"op": "put", "cls": "LOCK"}
+        x, y = rng.sample(range(nact), 2)
+        plan["policy"].setdefault("holds", []).append(dict(site, actor=f"a{x}", nth=rng.choice([1, 1, 2]),
+                                                           until=f"a{y}", until_ops=1))
     return plan
 
 
